@@ -390,6 +390,7 @@ def main():
                         if fn["locals"][i][1] == pn:
                             d[str(i)] = want
                 if len(d) == len(ent["params"]):
+                    d["argc"] = fn["argc"]
                     per[nn] = d
         if not per:
             print("CALL_ARGS: no callee with the named parameters for", ent["callee"])
